@@ -8,6 +8,8 @@ package verifstub
 import (
 	"context"
 	"fmt"
+	"io"
+	"sync"
 
 	remoteexecution "github.com/bazelbuild/remote-apis/build/bazel/remote/execution/v2"
 	vnd "github.com/buildbarn/bb-storage/internal/verifnd"
@@ -61,10 +63,79 @@ type Model struct {
 	Present  []bool
 	FailGet, FailPut, FailFindMissing bool // when true the operation fails with FailCode
 	FailCode codes.Code
-	Calls    []Call
+	// FailGetCode, when non-zero, is the code of an injected Get failure
+	// (e.g. NotFound for a replica whose FindMissing and Get disagree).
+	FailGetCode codes.Code
+	Calls       []Call
+	mu          sync.Mutex // guards Calls and the counters (replicas are used from several goroutines)
 	PutOK    int // uploads that completed with matching content
 	// ConsumedBad counts uploads whose buffer failed or mismatched (nothing stored).
 	ConsumedBad int
+	// BufferKind selects the kind of buffer Get returns for a present object:
+	// KindByteSlice (default), KindStream (a CAS buffer backed by a reader, as
+	// a remote or block-device replica returns) or KindStreamWithTask (the
+	// same with a background task attached, as a local store returns while it
+	// refreshes the object).
+	BufferKind int
+	// TaskErr is the outcome of the background task of KindStreamWithTask.
+	TaskErr error
+	// PutIdx logs the universe index of every upload that was stored.
+	PutIdx []int
+	// OnGet, when set, runs at the start of every Get (harness hook, e.g. to
+	// yield or to count concurrent calls).
+	OnGet func(d digest.Digest)
+	// OnPut, when set, runs at the start of every Put.
+	OnPut func(d digest.Digest)
+	// OnFindMissing, when set, runs at the start of every FindMissing.
+	OnFindMissing func()
+	// SourceClosed counts Close calls on the readers behind stream buffers.
+	SourceOpened, SourceClosed int
+}
+
+// Buffer kinds a Model can return from Get.
+const (
+	KindByteSlice = iota
+	KindStream
+	KindStreamWithTask
+)
+
+type modelReader struct {
+	m    *Model
+	data []byte
+	pos  int
+}
+
+func (r *modelReader) Read(p []byte) (int, error) {
+	if r.pos >= len(r.data) {
+		return 0, io.EOF
+	}
+	n := copy(p, r.data[r.pos:])
+	r.pos += n
+	return n, nil
+}
+
+func (r *modelReader) Close() error {
+	r.m.mu.Lock()
+	r.m.SourceClosed++
+	r.m.mu.Unlock()
+	return nil
+}
+
+// buffer builds the buffer Get hands out for object i under digest d.
+func (m *Model) buffer(d digest.Digest, i int) buffer.Buffer {
+	switch m.BufferKind {
+	case KindStream, KindStreamWithTask:
+		m.mu.Lock()
+		m.SourceOpened++
+		m.mu.Unlock()
+		b := buffer.NewCASBufferFromReader(d, &modelReader{m: m, data: m.Objects[i].Data}, buffer.BackendProvided(buffer.Irreparable(d)))
+		if m.BufferKind == KindStreamWithTask {
+			taskErr := m.TaskErr
+			b = b.WithTask(func() error { return taskErr })
+		}
+		return b
+	}
+	return buffer.NewValidatedBufferFromByteSlice(m.Objects[i].Data)
 }
 
 // NewModel creates a model with symbolic presence and failure bits.
@@ -98,11 +169,24 @@ func (m *Model) Index(d digest.Digest) int {
 }
 
 func (m *Model) errFail(op string) error {
-	return status.Errorf(m.FailCode, "%s: injected %s failure", m.Name, op)
+	code := m.FailCode
+	if op == "Get" && m.FailGetCode != codes.OK {
+		code = m.FailGetCode
+	}
+	return status.Errorf(code, "%s: injected %s failure", m.Name, op)
+}
+
+func (m *Model) log(c Call) {
+	m.mu.Lock()
+	m.Calls = append(m.Calls, c)
+	m.mu.Unlock()
 }
 
 func (m *Model) Get(ctx context.Context, d digest.Digest) buffer.Buffer {
-	m.Calls = append(m.Calls, Call{Op: "Get", Digests: []digest.Digest{d}})
+	m.log(Call{Op: "Get", Digests: []digest.Digest{d}})
+	if m.OnGet != nil {
+		m.OnGet(d)
+	}
 	if m.FailGet {
 		return buffer.NewBufferFromError(m.errFail("Get"))
 	}
@@ -110,11 +194,11 @@ func (m *Model) Get(ctx context.Context, d digest.Digest) buffer.Buffer {
 	if i < 0 || !m.Present[i] {
 		return buffer.NewBufferFromError(status.Errorf(codes.NotFound, "%s: object not found", m.Name))
 	}
-	return buffer.NewValidatedBufferFromByteSlice(m.Objects[i].Data)
+	return m.buffer(d, i)
 }
 
 func (m *Model) GetFromComposite(ctx context.Context, parent, child digest.Digest, slicer slicing.BlobSlicer) buffer.Buffer {
-	m.Calls = append(m.Calls, Call{Op: "GetFromComposite", Digests: []digest.Digest{parent, child}})
+	m.log(Call{Op: "GetFromComposite", Digests: []digest.Digest{parent, child}})
 	if m.FailGet {
 		return buffer.NewBufferFromError(m.errFail("GetFromComposite"))
 	}
@@ -127,10 +211,26 @@ func (m *Model) GetFromComposite(ctx context.Context, parent, child digest.Diges
 }
 
 func (m *Model) Put(ctx context.Context, d digest.Digest, b buffer.Buffer) error {
-	m.Calls = append(m.Calls, Call{Op: "Put", Digests: []digest.Digest{d}})
+	m.log(Call{Op: "Put", Digests: []digest.Digest{d}})
+	if m.OnPut != nil {
+		m.OnPut(d)
+	}
 	if m.FailPut {
 		b.Discard()
 		return m.errFail("Put")
+	}
+	// Like the real stores (local, gRPC client) ask the buffer for its size
+	// before consuming it.
+	sizeBytes, err := b.GetSizeBytes()
+	if err != nil {
+		b.Discard()
+		m.ConsumedBad++
+		return err
+	}
+	if sizeBytes != d.GetSizeBytes() {
+		b.Discard()
+		m.ConsumedBad++
+		return status.Errorf(codes.InvalidArgument, "%s: buffer is %d bytes in size, while the digest says %d", m.Name, sizeBytes, d.GetSizeBytes())
 	}
 	data, err := b.ToByteSlice(1 << 20)
 	if err != nil {
@@ -142,13 +242,19 @@ func (m *Model) Put(ctx context.Context, d digest.Digest, b buffer.Buffer) error
 		m.ConsumedBad++
 		return status.Errorf(codes.InvalidArgument, "%s: uploaded content does not match the digest", m.Name)
 	}
+	m.mu.Lock()
 	m.Present[i] = true
+	m.PutIdx = append(m.PutIdx, i)
 	m.PutOK++
+	m.mu.Unlock()
 	return nil
 }
 
 func (m *Model) FindMissing(ctx context.Context, digests digest.Set) (digest.Set, error) {
-	m.Calls = append(m.Calls, Call{Op: "FindMissing", Digests: digests.Items()})
+	m.log(Call{Op: "FindMissing", Digests: digests.Items()})
+	if m.OnFindMissing != nil {
+		m.OnFindMissing()
+	}
 	if m.FailFindMissing {
 		return digest.EmptySet, m.errFail("FindMissing")
 	}
